@@ -87,6 +87,9 @@ class Registry(object):
         if c.label in self.contracts:
             raise ValueError("duplicate contract %s" % c.label)
         self.contracts[c.label] = c
+        from . import builtins as _B
+        for k, v in c.spec_funcs.items():
+            _B.SPEC_FUNCS.setdefault(k, v)
         # the first contract registered for a key is the call-site contract
         self.by_key.setdefault(c.key, c)
         return c
